@@ -170,6 +170,23 @@ theorem seeded_c15a_stale_para : ∃ sched,
 example : (run seededC15a init [(0, .spawn false), (0, .call (.park false)), (0, .go), (0, .cancel), (0, .wake .cancel), (0, .go),
     (0, .call .sleep), (0, .go), (0, .go), (0, .go)]).sh.para 0 = none := by decide
 
+/-! ### Negation witness: the seeded change C15_b (`park_timeout` returns early on the unpark token) -/
+
+/-- **C15_b**: the timer takes the parked coroutine and stores `TimedOut`, an unpark lands before the resumed coroutine
+    runs `check_park`: with the early `return Ok(())` the para is not consumed, the coroutine ends, its stack is pooled,
+    and the next coroutine on it – whose socket has no time-out – gets `TimedOut` from its first blocking io call. -/
+theorem seeded_c15b_stale_para : ∃ sched,
+    (run seededC15b init sched).sh.gen 1 = (run seededC15b init sched).sh.gen 0 ∧
+    (run seededC15b init sched).sh.lastPark 0 = some none ∧
+    (run seededC15b init sched).sh.lastPark 1 = some (some .timedOut) :=
+  ⟨[(0, .spawn false), (0, .call (.park false)), (0, .go), (0, .wake .timer), (0, .go), (0, .wake .unpark),   -- timer, then the late unpark
+    (0, .finish), (0, .drop true),
+    (1, .spawn true), (1, .call .io), (1, .go), (1, .wake .unpark), (1, .go), (1, .go)], by decide⟩
+
+/-- the same schedule on the code: the park reports its time-out and the fresh coroutine's io call is clean -/
+example : (run fixed init [(0, .spawn false), (0, .call (.park false)), (0, .go), (0, .wake .timer), (0, .go), (0, .wake .unpark),
+    (0, .finish), (0, .drop true), (1, .spawn true), (1, .call .io), (1, .go), (1, .wake .unpark), (1, .go), (1, .go)]).sh.lastPark 1 = some none := by decide
+
 /-! ### Negation witness: F8 on the pinned code -/
 
 /-- **F8**: `EventSender::send` on the pinned code – a cancel lands between its `check_cancel` and the `is_canceled`
